@@ -6,6 +6,8 @@ import (
 	"fmt"
 	"os"
 	"path/filepath"
+	"runtime/debug"
+	"runtime/pprof"
 	"strconv"
 	"strings"
 	"time"
@@ -19,6 +21,7 @@ func envOr(k, d string) string {
 }
 
 func main() {
+	debug.SetGCPercent(800) // the loaded SSA program is a large, static heap
 	if len(os.Args) < 2 {
 		fmt.Fprintln(os.Stderr, "usage: gosym job|check|replay ...")
 		os.Exit(2)
@@ -67,6 +70,7 @@ func cmdJob(args []string) {
 	solver := fs.String("solver", "z3", "solver")
 	slog := fs.String("solverlog", "", "log solver input to file")
 	verbose := fs.Bool("v", false, "verbose")
+	cpuprof := fs.String("cpuprofile", "", "write cpu profile")
 	fs.Parse(args)
 	rest := fs.Args()
 	if len(rest) < 1 {
@@ -107,6 +111,11 @@ func cmdJob(args []string) {
 	for _, a := range rest[1:] {
 		n, _ := strconv.ParseInt(a, 10, 64)
 		spec.Params = append(spec.Params, n)
+	}
+	if *cpuprof != "" {
+		f, _ := os.Create(*cpuprof)
+		pprof.StartCPUProfile(f)
+		defer pprof.StopCPUProfile()
 	}
 	t0 := time.Now()
 	res := w.runJob(spec)
